@@ -25,7 +25,7 @@ def fields_of(proj):
     for e in proj:
         if e == "*":
             continue
-        if e in ("@Some", "@Ok", "@Err", "@Ready"):
+        if e in ("@Some", "@Ok", "@Err", "@Ready", "@Continue", "@Break"):
             skip0 = True
             continue
         if skip0 and e == ".0":
@@ -629,11 +629,10 @@ def _operands_of_rv(rv):
 
 TRANSPARENT = [
     # (regex on callee, indexes of arguments the result is derived from)
-    (r"option::Option::<T>::(as_ref|as_mut|unwrap|expect|unwrap_or_default|take|cloned|copied|filter|ok_or|as_deref|unwrap_unchecked)$", [0]),
+    (r"option::Option::<T>::(as_ref|as_mut|unwrap|expect|unwrap_or_default|take|cloned|copied|filter|ok_or|as_deref|unwrap_unchecked|is_some_and)$", [0]),
     (r"option::Option::<T>::(unwrap_or|or)$", [0, 1]),
-    (r"option::Option::<T>::(map|and_then|unwrap_or_else|map_or|then|or_else|is_some_and|get_or_insert_with)$", [0, 1]),
     (r"result::Result::<T, E>::(ok|unwrap|expect|as_ref|as_mut|unwrap_or_default|err)$", [0]),
-    (r"result::Result::<T, E>::(map|map_err|and_then|unwrap_or_else|unwrap_or)$", [0, 1]),
+    (r"result::Result::<T, E>::(unwrap_or)$", [0, 1]),
     (r"(clone::Clone|borrow::ToOwned)::(clone|to_owned)$", [0]),
     (r"as (std|core)::clone::Clone>::clone$", [0]),
     (r"ops::(deref::)?(Deref|DerefMut)>?::(deref|deref_mut)$", [0]),
@@ -643,9 +642,12 @@ TRANSPARENT = [
     (r"ops::(index::)?(Index|IndexMut)(<.*>)?>?::(index|index_mut)$", [0]),
     (r"slice::<impl \[T\]>::(iter|iter_mut|first|last|get|to_vec|into_vec|first_mut|last_mut)$", [0]),
     (r"(vec::Vec::<T, A>|vec::Vec::<T>)::(drain|as_slice|as_mut_slice|last_mut|iter|pop|remove|first)$", [0]),
+    (r"vec_deque::VecDeque::<T, A>::(pop_front|pop_back|front|back|iter|drain)$", [0]),
     (r"iter::(traits::)?(collect::)?IntoIterator>?::into_iter$", [0]),
-    (r"iter::(traits::)?(iterator::)?Iterator>?::(next|map|filter|filter_map|flat_map|collect|cloned|copied|chain|find|any|all|rev|enumerate|peekable)$", [0, 1]),
-    (r"Iterator>::(next|map|filter|filter_map|flat_map|collect|cloned|copied|chain|find|any|all)$", [0, 1]),
+    (r"Iterator>?::(next|collect|cloned|copied|rev|enumerate|peekable|filter|find|skip_while|take_while|last|nth)$", [0]),
+    (r"Iterator>?::(chain|zip)$", [0, 1]),
+    (r"ops::try_trait::Try>?::branch$", [0]),
+    (r"ops::try_trait::FromResidual(<.*>)?>?::from_residual$", [0]),
     (r"boxed::Box::<T>::new$", [0]),
     (r"sync::Arc::<T>::new$", [0]),
     (r"rc::Rc::<T>::new$", [0]),
@@ -655,18 +657,40 @@ TRANSPARENT = [
     (r"string::ToString>?::to_string$", [0]),
     (r"borrow::Cow::<'_, B>::(into_owned|to_mut)$", [0]),
     (r"mem::(take|replace)$", [0]),
-    (r"collections::HashMap::<K, V, S>::(get_mut|get|remove|values_mut|values|entry|drain)$", [0]),
+    (r"collections::hash::map::HashMap::<K, V, S, A>::(get_mut|get|remove|values_mut|values|entry|drain)$", [0]),
+    (r"hash::map::Entry::<'a, K, V, A>::or_default$", [0]),
     (r"hash_map::Entry::<'a, K, V>::or_default$", [0]),
     (r"num::<impl u\d+>::(saturating_sub|saturating_add|wrapping_add|wrapping_sub|min|max)$", [0, 1]),
     (r"cmp::Ord>?::(min|max)$", [0, 1]),
 ]
 _TRANSPARENT_RX = [(re.compile(rx), idx) for rx, idx in TRANSPARENT]
 
+# Combinators whose result is the closure's return value, the closure's parameter being bound to (an element of)
+# the data argument: (regex, data index, closure index, also_data) -- also_data: the data argument itself can be
+# the result too (unwrap_or_else, get_or_insert_with).
+COMBINATORS = [
+    (r"option::Option::<T>::(map|and_then)$", 0, 1, False),
+    (r"option::Option::<T>::(map_or|map_or_else)$", 0, 2, False),
+    (r"option::Option::<T>::(unwrap_or_else|or_else|get_or_insert_with)$", 0, 1, True),
+    (r"result::Result::<T, E>::(map|and_then)$", 0, 1, False),
+    (r"result::Result::<T, E>::(map_err|unwrap_or_else|or_else)$", 0, 1, True),
+    (r"Iterator>?::(map|filter_map|flat_map|any|all|position|find_map|map_while|for_each|fold)$", 0, 1, False),
+    (r"bool::then$", 0, 1, False),
+]
+_COMBINATORS_RX = [(re.compile(rx), d, c, a) for rx, d, c, a in COMBINATORS]
+
 
 def transparent_args(callee):
     for rx, idx in _TRANSPARENT_RX:
         if rx.search(callee):
             return idx
+    return None
+
+
+def combinator(callee):
+    for rx, d, c, a in _COMBINATORS_RX:
+        if rx.search(callee):
+            return d, c, a
     return None
 
 
@@ -843,16 +867,36 @@ class Prov:
         via = ("call", callee, b)
         out = set()
         idx = transparent_args(callee) or transparent_args(t.get("decl", ""))
+        comb = combinator(callee) or combinator(t.get("decl", ""))
         local_fn = self.facts.fns.get(callee)
+        if comb is not None and len(args) > comb[1]:
+            di, ci, also = comb
+            if self._is_closure_arg(fn, args[ci]):
+                out |= self._closure_result(fn, args[ci], path, depth, _seen, via, data=args[di])
+            else:
+                # a function item or an opaque callable: the result depends on data and callable
+                for a in (args[di], args[ci]):
+                    for o in self._rec(fn, a, (), depth, _seen):
+                        out.add(Origin(o.kind, o.key, o.path, o.via + (via,)))
+                if args[ci]["k"] == "const" and "fn" in args[ci]:
+                    g = self.facts.fns.get(args[ci]["fn"])
+                    if g is not None and depth < self.max_depth:
+                        for o in self.of_local(g, 0, path, depth + 1):
+                            if o.kind == "param":
+                                for o2 in self._rec(fn, args[di], o.path, depth, _seen):
+                                    out.add(Origin(o2.kind, o2.key, o2.path, o2.via + o.via + (via,)))
+                            else:
+                                out.add(Origin(o.kind, o.key, o.path, o.via + (via,)))
+            if also:
+                for o in self._rec(fn, args[di], path, depth, _seen):
+                    out.add(Origin(o.kind, o.key, o.path, o.via + (via,)))
+            return out
         if idx is not None:
             for i in idx:
                 if i < len(args):
                     a = args[i]
-                    if i > 0 and self._is_closure_arg(fn, a):
-                        out |= self._closure_result(fn, a, path, depth, _seen, via)
-                    else:
-                        for o in self._rec(fn, a, path if i == 0 else (), depth, _seen):
-                            out.add(Origin(o.kind, o.key, o.path, o.via + (via,)))
+                    for o in self._rec(fn, a, path if i == 0 else (), depth, _seen):
+                        out.add(Origin(o.kind, o.key, o.path, o.via + (via,)))
             return out
         if local_fn is not None and depth < self.max_depth and local_fn.kind != "Closure":
             # summarise: origins of the callee's return place over its parameters
@@ -903,7 +947,7 @@ class Prov:
     def _is_closure_arg(self, fn, op):
         return self._closure_def(fn, op) is not None
 
-    def _closure_result(self, fn, op, path, depth, _seen, via):
+    def _closure_result(self, fn, op, path, depth, _seen, via, data=None):
         cd = self._closure_def(fn, op)
         out = set()
         if cd is None:
@@ -919,8 +963,12 @@ class Prov:
                         for o2 in self._rec(fn, agg["ops"][i], o.path, depth, _seen):
                             out.add(Origin(o2.kind, o2.key, o2.path, o2.via + o.via + (via,)))
             elif o.kind == "param":
-                # element handed in by the combinator: keep as an abstract closure parameter
-                out.add(Origin("cparam", "%s#%d" % (cf.path, o.key), o.path, o.via + (via,)))
+                if data is not None:
+                    # the combinator binds the closure's parameter to (an element of) its data argument
+                    for o2 in self._rec(fn, data, o.path, depth, _seen):
+                        out.add(Origin(o2.kind, o2.key, o2.path, o2.via + o.via + (via,)))
+                else:
+                    out.add(Origin("cparam", "%s#%d" % (cf.path, o.key), o.path, o.via + (via,)))
             else:
                 out.add(Origin(o.kind, o.key, o.path, o.via + (via,)))
         return out
@@ -1137,3 +1185,19 @@ def const_value(fn, op, depth=6):
             v = const_value(fn, rv["op"], depth - 1)
             return v if v is not None and v >= 0 else None
     return None
+
+
+def constructions(facts, adt, variant=None, crates=None):
+    """P10: every Aggregate building `adt` (optionally a variant): [(fn, block, stmt, {field: operand})]"""
+    out = []
+    for fn in facts.fns.values():
+        if crates is not None and fn.crate not in crates:
+            continue
+        for b, blk in enumerate(fn.blocks):
+            if blk["cleanup"]:
+                continue
+            for s in blk["stmts"]:
+                if s["k"] == "assign" and s["rv"]["k"] == "agg" and s["rv"].get("adt") == adt \
+                        and (variant is None or s["rv"]["variant"] == variant):
+                    out.append((fn, b, s, dict(zip(s["rv"]["fields"], s["rv"]["ops"]))))
+    return out
